@@ -12,6 +12,7 @@
  */
 
 #include <errno.h>
+#include <limits.h>
 #include <stdlib.h>
 #include <stdio.h>
 #include <string.h>
@@ -72,19 +73,25 @@ int rf_wavheader_decode(const uint8_t *p, unsigned int sz, rf_wavheader_t *wh)
 
 	wh->data_chunk_size = rf_unpack_u32le(&pack);
 
-	/* do some basic validation */
+	/* do some basic validation (the sizes come from the file so the sum
+	 * must not be allowed to wrap)
+	 */
 	if (0 != memcmp(riff, wh->chunk_id, 4))
 		return -EINVAL;
-	if (wh->chunk_size < (12 + wh->fmt_chunk_size + wh->fact_chunk_size))
+	if (wh->chunk_size <
+	    ((uint64_t) 12 + wh->fmt_chunk_size + wh->fact_chunk_size))
 		return -EINVAL;
 	if (0 != memcmp(wave, wh->format, 4))
 		return -EINVAL;
 
-	/* if we have tried to read past the end of the buffer then
-	 * rf_pack_remaining() will return a -ve number and therefore
-	 * the return value will be larger than the value supplied.
+	/* if we have tried to read past the end of the buffer then the
+	 * cursor is beyond the end of the buffer and therefore the return
+	 * value will be larger than the value supplied. A hostile fmt chunk
+	 * size can move the cursor almost 4GiB so the distance must not be
+	 * calculated (and truncated) as an int.
 	 */
-	return sz - rf_pack_remaining(&pack);
+	size_t consumed = pack.p - pack.basep;
+	return consumed > INT_MAX ? INT_MAX : (int) consumed;
 }
 
 int rf_wavheader_encode(rf_wavheader_t *wh, uint8_t *p, unsigned int sz)
